@@ -52,7 +52,9 @@ def shortest_length_clause(vc, v, first_payload_bits, n, most=5):
     first_payload_bits bits of the value and every further octet seven, so a k+1-th octet is present exactly when the value
     does not fit in first_payload_bits + 7 (k - 1) bits.  Stated on the value, not on how the code under contract happened to
     fork on it (bin() of the value, a shift loop, comparisons with thresholds ...)."""
-    return vc.and_(1 <= n <= most, *[vc.iff(v >= (1 << (first_payload_bits + 7 * (k - 1))), n > k) for k in range(1, most)])
+    lsb = vc.bitlist(v, 32, msb_first=False)
+    at_least = lambda m: vc.or_(*lsb[m:])  # v >= 2^m  <=>  some bit at position m or above is set (v < 2^32)
+    return vc.and_(1 <= n <= most, *[vc.iff(at_least(first_payload_bits + 7 * (k - 1)), n > k) for k in range(1, most)])
 
 
 @contract("MBXML.uintvar", "okdmr.dmrlib.motorola.mbxml:MBXML.write_uintvar", ["C14", "C15", "C19"])
@@ -192,3 +194,48 @@ def latlong(vc, which):
 
 latlong.shapes = lambda tier: [dict(which="lat"), dict(which="long")]
 latlong.native_random = 2000
+
+
+@contract("MBXML.xml_view_bounded", "okdmr.dmrlib.motorola.mbxml:MBXMLToken.as_xml", ["C14"], bounded=True,
+          note="the decoding formulas AS USED BY the XML view (MBXMLToken.as_xml, one copy per shape element): coordinates and info-time written by the writers, "
+               "put into an LRRP report, serialised, parsed and rendered by the library; native grid + random (floats, text)")
+def xml_view(vc, shape):
+    if vc.mode != "native":
+        return
+    from xml.dom import minidom
+    from datetime import datetime
+    from okdmr.dmrlib.motorola.lrrp import LRRP
+    from okdmr.dmrlib.motorola.mbxml import MBXMLDocumentIdentifier
+
+    doc = LRRP(document_id=MBXMLDocumentIdentifier.LRRP_TriggeredLocationReport_NCDT)
+    doc.parts.append(doc.get_token(name="request-id", value=bytes.fromhex("2468ACE0"), attributes={}, is_request=False))
+    if shape == "info-time":
+        when = datetime(2000 + vc.uint(7, "y") % 100, 1 + vc.uint(4, "mo") % 12, 1 + vc.uint(5, "d") % 28, vc.uint(5, "h") % 24, vc.uint(6, "mi") % 60, vc.uint(6, "s") % 60)
+        doc.parts.append(doc.get_token(name="info-time", value=MBXML.write_infotime(when), attributes={}, is_request=False))
+        wire = MBXML.as_bytes(doc)
+        dom = minidom.parseString(MBXML.from_bytes(wire)[0].as_xml())
+        text = dom.getElementsByTagName("info-time")[0].firstChild.data
+        vc.prove("xml_view_shows_the_written_time", text == when.strftime("%Y%m%d%H%M%S"), note=dict(when=str(when), shown=text))
+        return
+    edge = vc.uint(3, "edge") == 0
+    k = vc.uint(3, "k")
+    lat = (vc.uint(28, "mlat") % 90_000_001) / 1e6 * (-1 if vc.bit("nlat") else 1)
+    lon = (vc.uint(28, "mlon") % 180_000_000) / 1e6 * (-1 if vc.bit("nlon") else 1)
+    if edge:
+        lat = [0.0, 90.0, -90.0, 45.0, -0.000001, 89.999999, -89.999999, 12.345345][k]
+        lon = [0.0, 179.999999, -180.0, 90.0, -0.000001, 0.000001, -179.999999, -74.005974][k]
+    la, lo = MBXML.write_latitude(lat), MBXML.write_longitude(lon)
+    value = {"point-2d": (la, lo), "circle-2d": (la, lo, 5.5), "point-3d": (la, lo, 120.5)}[shape]
+    doc.parts.append(doc.get_token(name=shape, value=value, attributes={}, is_request=False))
+    wire = MBXML.as_bytes(doc)
+    docs = MBXML.from_bytes(wire)
+    vc.prove("document_reserialises", len(docs) == 1 and MBXML.as_bytes(docs[0]) == wire)
+    elm = minidom.parseString(docs[0].as_xml()).getElementsByTagName(shape)[0]
+    x_lat = float(elm.getElementsByTagName("lat")[0].firstChild.data)
+    x_lon = float(elm.getElementsByTagName("long")[0].firstChild.data)
+    vc.prove("xml_view_shows_the_written_latitude", x_lat == round(lat, 6), note=dict(written=lat, shown=x_lat, wire=wire.hex()))
+    vc.prove("xml_view_shows_the_written_longitude", x_lon == round(lon, 6), note=dict(written=lon, shown=x_lon, wire=wire.hex()))
+
+
+xml_view.shapes = lambda tier: [dict(shape=s) for s in ("point-2d", "circle-2d", "point-3d", "info-time")]
+xml_view.native_random = 1200
